@@ -1203,6 +1203,10 @@ namespace Pistache::Http
         if (transport && state->armed)
         {
             transport->disarmTimer(state->timerFd);
+            // arm() created the descriptor: release it with the timer
+            close(state->timerFd);
+            state->timerFd = -1;
+            state->armed   = false;
         }
     }
 
